@@ -87,6 +87,26 @@ Definition new_error {E} (no_backends : E) (ferr : list nat -> option E) (bs : l
   | BShadowed r _ _ => ferr (ids r)
   end.
 
+(* New as a transformer of the configuration value the caller passes (and may pass again: an
+   endpoint registered twice, a stack rebuilt).  `cfgCopy := *cfg` copies the struct; regular
+   and shadow are grown as NEW slices, so the caller's Backend array is never written: the
+   configuration after New is the configuration before. *)
+Definition new_on (cfg : list backend) : built * list backend := (shadow_new cfg, cfg).
+
+(* n successive builds from the same configuration value *)
+Fixpoint rebuilds (n : nat) (cfg : list backend) : list built * list backend :=
+  match n with
+  | 0 => ([], cfg)
+  | S k => let '(b, cfg1) := new_on cfg in
+           let '(bs, cfg2) := rebuilds k cfg1 in (b :: bs, cfg2)
+  end.
+
+(* the variant that filters the regular backends "in place" (regular := cfgCopy.Backend[:0]):
+   the survivors are written over the first slots of the caller's array *)
+Definition new_inplace (cfg : list backend) : built * list backend :=
+  let '(reg, _, _) := shadow_split cfg in
+  (shadow_new cfg, (reg ++ skipn (List.length reg) cfg)%list).
+
 (* ------------------------------------------------------------------------------------ *)
 (* 2. the shadow proxy as a function *)
 
